@@ -10,7 +10,7 @@
 (*  TabStep  - byte-table form, used to hand a compact oracle to the Go    *)
 (*             side (the 256-entry table T is derived from BitStep).       *)
 (***************************************************************************)
-EXTENDS Naturals, Sequences, Bitwise
+EXTENDS Naturals, Sequences, Bitwise, SequencesExt
 
 Poly == 40961                      \* 0xA001
 
@@ -41,6 +41,9 @@ RECURSIVE CrcFrom(_, _, _)
 CrcFrom(r, seq, k) == IF k > Len(seq) THEN r ELSE CrcFrom(BitStep(r, seq[k]), seq, k + 1)
 
 Crc(seq) == CrcFrom(0, seq, 1)
+
+\* the same function without deep recursion, for long inputs
+CrcFold(r, seq) == FoldLeft(LAMBDA x, y : BitStep(x, y), r, seq)
 
 LE16(v) == << v % 256, v \div 256 >>
 =============================================================================
